@@ -1,8 +1,9 @@
 # lib/tpbase.py — shared pieces of the task-pool properties (C08, C20).
 import re
 
-EXEC = ("tp", "bs", "sd")
-PER_SHARD = 4
+EXEC = ("tp", "bs", "sd", "tps")
+MODEL_AFTER_IMPL = True
+PER_SHARD = 12
 IMPL_SHARDS = 6
 
 
@@ -14,7 +15,29 @@ def strip_impl(o):
     return re.sub(r" th=-?\d+ dup=\d+", "", o)
 
 
+def model_line(case, obs):
+    """scheduled runs (tps): the recorded trace is replayed through the model; everything else: the model runs the case"""
+    if case.startswith("tps "):
+        m = re.match(r"labels=(\S+) started=(\S+)", obs)
+        if not m:
+            return "#"
+        return "tpr %s %s %s" % ("a" if " cfg=a" in case else "f", m.group(1), m.group(2))
+    return case
+
+
+def tps_obs(obs):
+    """[(todo, waiting, active)] of the OBS labels, the started ids, dead flag"""
+    m = re.match(r"labels=(\S+) started=(\S+) dead=(\d) clock=(\d+)", obs)
+    if not m:
+        return None
+    o = [tuple(int(x) for x in l[3:].split("/")) for l in m.group(1).split(";") if l.startswith("OBS")]
+    st = [] if m.group(2) == "-" else [int(x) for x in m.group(2).split(",")]
+    return {"obs": o, "started": st, "dead": m.group(3) == "1", "labels": m.group(1)}
+
+
 def agree(im, mo):
+    if im.startswith("labels="):
+        return mo.startswith("LOCKSTEP-OK")
     if not mo.startswith("n="):
         # deterministic model runs (whole-server bursts, shutdown scenarios); across connections only
         # the multiset of answers is compared, never an order the code does not define
